@@ -11,7 +11,7 @@ NPARTS = 14
 
 TRUSTED = [
     "Coq 8.16.1 kernel (coqc; vm_compute for the test vectors, the byte sweeps of the zbase32 group lemma and the Examples); "
-    "no axioms (Print Assumptions of all 16 theorems: closed under the global context)",
+    "no axioms (Print Assumptions of all 19 theorems: closed under the global context)",
     "tools/translate_crypto.py: nonce expression, key-derivation / cipher / (de)serialisation statements of encrypt and decrypt, the bodies of "
     "sign/verify/recover_pk (teos-common/src/cryptography.rs) and the slice bounds of Locator::new (appointment.rs); strict templates, anything "
     "else is a broken tie; tools/translate.py: LOCATOR_LEN",
@@ -99,7 +99,8 @@ def run(ctx):
         "C17_aead_roundtrip / C17_decrypt_encrypt: open k (seal k m) = Some m and decrypt (encrypt t k) k = Some t for ANY stream/tag/key-hash functions, "
         "every key/id, every message / well-formed transaction; C17_concrete_decrypt_encrypt for the SHA-256/ChaCha20/Poly1305 instance with the nonces read from the source",
         "C17_tx_codec_roundtrip: deserialize (serialize t) = t and deserialize (serialize t ++ extra) = Err(trailing) for every well-formed t, every non-empty extra; "
-        "C17_tx_encode_injective; C17_compact_size_minimal",
+        "C17_tx_encode_injective; C17_compact_size_minimal; C17_tx_decode_canonical: deserialize p = t implies p = serialize t (the decoder accepts only "
+        "canonical byte strings); hence C17_decrypt_only_encryptions: decrypt c k = Some t implies c = encrypt t k, byte for byte",
         "C17_tamper_needs_collision, C17_bitflip_needs_collision, C17_truncation_needs_forgery: a successful opening under another id / of a modified, truncated "
         "or extended blob exhibits an explicit key-hash collision, tag collision or tag forgery; C17_tag_flip_fails, C17_too_short_fails: unconditional rejection",
         "C17_locator_prefix (locator k = first LOCATOR_LEN = 16 bytes of k in serialisation order), C17_source_parameters (generated from the source)",
